@@ -148,13 +148,17 @@ CLAIMED = {
              "of step sizes is not proved; gradient-sampling solvers use an unseeded RNG (clauses must hold for every draw)."),
     "C03": dict(
         category="proof", technique=TECH, design="DESIGN.md §4 C03",
-        text="Bundle (append / serious-step moveto / aggregate / delete_largest with std::nth_element as oracle, smeared e and s, the stopping tests, the curve-search status logic) and ellipsoid (1-D branch, deep-cut "
-             "update, stopping tests) are modelled over any ordered field. Proved for convex f with true sub-gradients and any simplex point returned by the QP oracle (proved to be one for 1 and 2 rows): every bundle "
-             "pair and the aggregate stay global lower bounds under any operation sequence, the bundle never exceeds its capacity, the stopping test certifies f(x) - f(z) <= eps sqrt(n) (1 + |z - x|) for every z, "
-             "converged <=> the test, and for the ellipsoid x* in E(x,H) gives f(x) - f* <= sqrt(g'Hg), best <= f(x_k), the deep cut is valid and the 1-D run keeps x* (26 theorems; n >= 2 run certificate is `_partial`: "
-             "containment after the Loewner-John update is a hypothesis). Correspondence: every logged append / solve / csearch pass / ellipsoid update of real rqb/fpba1/fpba2/ellipsoid runs replayed from the logged "
-             "pre-state (1e-9); python oracle evaluates the statement's two inequalities on sharp functions with known (x*, f*).",
-        note=NOTE_COMMON + "QP sub-solver for >= 3 rows and Loewner-John containment for n >= 2 are monitored hypotheses; ellipsoid convergence within 20000 evaluations is tested only."),
+        text="Bundle (append / serious-step moveto / aggregate / delete_largest with std::nth_element as oracle, smeared e and s, the stopping tests), the whole curve-search loop, the proximity-parameter updates, the Nesterov "
+             "sequence, the outer loops of RQB / FPBA1 / FPBA2 and the whole ellipsoid loop (1-D branch, n-D deep-cut update, stopping tests, status logic) are modelled over any ordered field. Proved for convex f with true "
+             "sub-gradients and any simplex point returned by the QP oracle (proved to be one for 1 and 2 rows): every bundle pair and the aggregate stay global lower bounds under any operation sequence, the bundle never exceeds "
+             "its capacity, the proximity parameter stays positive, the stopping test certifies f(x) - f(z) <= eps sqrt(n) (1 + |z - x|) for every z, and for all three solvers a run reporting converged returns a point meeting the "
+             "statement's bound 2 eps sqrt(n) (1 + |x - x*|) on sharp functions; for the ellipsoid the Loewner-John step is PROVED (deep cut, n >= 2, every alpha in [-1/n, 1], coefficients as coded, inverse-free form): the "
+             "updated ellipsoid contains the half-ellipsoid, so a run reporting converged returns a point with f - f* < eps (or the early-exit bound) assuming only |x* - x0| <= R, hence the statement's 10 eps; best <= f(x_k); "
+             "the 1-D run keeps x* (56 theorems, nothing `_partial`). Correspondence: every logged append / solve / csearch pass / outer-loop decision / proximity parameter / ellipsoid update of real rqb / fpba1 / fpba2 / "
+             "ellipsoid runs replayed from the logged pre-state (1e-9); the QP contract (simplex point, Frank-Wolfe gap) is monitored on every bundle.solve of every run; python oracle evaluates the statement's inequalities on "
+             "sharp functions with known (x*, f*).",
+        note=NOTE_COMMON + "The QP sub-solver for >= 3 rows is a monitored oracle (its multipliers being a simplex point is the hypothesis of the certificate; 23% of the calls are not reported converged by the QP solver, which the bundle "
+             "code only logs); ellipsoid convergence within 20000 evaluations is tested only."),
     "C04": dict(
         category="proof", technique=TECH_GEN, design="DESIGN.md §4 C04",
         text="The primal-dual interior-point loop (normalisation, residuals, make_smax, both backtracking stages, the equality-only path) is modelled with LDLT / FullPivLU / make_strictly_feasible as oracles and "
